@@ -5,6 +5,9 @@ CONSTANTS
   MaxDepth = 0
   MaxTries = 0
   Faulty = FALSE
+  Extra = 0
+  Reparse = FALSE
+  TraceReparseLimit = 16
 INIT TInit
 NEXT TNext
 INVARIANTS Summary
